@@ -486,9 +486,12 @@ def confirm_known(mod, key: str):
 
 
 def write_replay(prop: str, subname: str, bucket: str, case, detail) -> str:
-    os.makedirs(os.path.join(VERIF, "replays"), exist_ok=True)
+    # VERIF_REPLAY_OUT redirects NEW replay files (used when the checks are tried against seeded
+    # breakers, so that the committed regression files are not overwritten)
+    outdir = os.environ.get("VERIF_REPLAY_OUT") or os.path.join(VERIF, "replays")
+    os.makedirs(outdir, exist_ok=True)
     hid = hashlib.sha1(f"{subname}|{bucket}".encode()).hexdigest()[:10]
-    path = os.path.join(VERIF, "replays", f"{prop}-{hid}.json")
+    path = os.path.join(outdir, f"{prop}-{hid}.json")
     doc = {"property": prop, "sub": subname, "bucket": bucket, "case": case, "detail": detail,
            "tree": tree_identity()}
     with open(path, "w", encoding="utf-8") as fh:
@@ -520,7 +523,8 @@ def replay_file(path: str, quiet: bool = False):
 
 
 def write_evidence(mod, prop, tier, seed, total: Stats, wall, nviol, replayed, known_hit) -> None:
-    os.makedirs(os.path.join(VERIF, "evidence"), exist_ok=True)
+    evdir = os.environ.get("VERIF_EVIDENCE_OUT") or os.path.join(VERIF, "evidence")
+    os.makedirs(evdir, exist_ok=True)
     level = getattr(mod, "LEVEL", "exploration")
     samples = [{"class": k, "case": _trim(v)} for k, v in list(total.samples.items())[:24]]
     exhaustive = all((s.exhaustive if tier == "thorough" else s.exhaustive_quick) for s in mod.SUBS
@@ -554,7 +558,7 @@ def write_evidence(mod, prop, tier, seed, total: Stats, wall, nviol, replayed, k
         "assumptions": list(getattr(mod, "ASSUMPTIONS", [])), "wall_s": round(wall, 2),
         "violations": nviol,
     }
-    with open(os.path.join(VERIF, "evidence", f"{prop}.json"), "w", encoding="utf-8") as fh:
+    with open(os.path.join(evdir, f"{prop}.json"), "w", encoding="utf-8") as fh:
         json.dump(doc, fh, indent=1, default=str)
         fh.write("\n")
 
